@@ -22,6 +22,13 @@ ASSUME StrToBits("0110") = <<0,1,1,0>> /\ BitsToStr(<<1,0>>) = "10" /\ DecToBits
 ASSUME BitsToDec(DecToBits("340282366920938463463374607431768211455")) = "340282366920938463463374607431768211455"
 ASSUME BytesToBits(<<160>>) = <<1,0,1,0,0,0,0,0>> /\ BitsToBytes(<<1,0,1,0,0,0,0,0>>) = <<160>>
 ASSUME SubStr("abcdef", 2, 4) = "bcd" /\ StrLen("abc") = 3 /\ StrCat("a","b") = "ab"
+\* appended for X04: RFC 4231 test cases 1, 2; NIST SP 800-38A F.1.5 / F.1.6 (ECB-AES256, blocks 1-2)
+ASSUME BytesToHex(HmacSha512(H("0b0b0b0b0b0b0b0b0b0b0b0b0b0b0b0b0b0b0b0b"), StrToCodes("Hi There"))) = "87aa7cdea5ef619d4ff0b4241a1d6cb02379f4e2ce4ec2787ad0b30545e17cdedaa833b7d6b8a702038b274eaea3f4e4be9d914eeb61f1702e696c203a126854"
+ASSUME BytesToHex(HmacSha512(StrToCodes("Jefe"), StrToCodes("what do ya want for nothing?"))) = "164b7a7bfcf819e2e395fbe73b56e0a387bd64222e831fd610270cd7ea2505549758bf75c05a994a6d034f65f8f0e6fdcaeab1a34d4a6b4b636e070a38bce737"
+ASSUME HmacSha512(<<>>, <<1,2,3>>) = HmacSha512(<<0>>, <<1,2,3>>)
+ASSUME BytesToHex(AesEcbEnc(H("603deb1015ca71be2b73aef0857d77811f352c073b6108d72d9810a30914dff4"), H("6bc1bee22e409f96e93d7e117393172aae2d8a571e03ac9c9eb76fac45af8e51"))) = "f3eed1bdb5d2a03c064b5a7e3db181f8591ccb10d410ed26dc5ba74a31362870"
+ASSUME BytesToHex(AesEcbDec(H("603deb1015ca71be2b73aef0857d77811f352c073b6108d72d9810a30914dff4"), H("f3eed1bdb5d2a03c064b5a7e3db181f8591ccb10d410ed26dc5ba74a31362870"))) = "6bc1bee22e409f96e93d7e117393172aae2d8a571e03ac9c9eb76fac45af8e51"
+ASSUME AesEcbEnc(H("603deb1015ca71be2b73aef0857d77811f352c073b6108d72d9810a30914dff4"), <<>>) = <<>>
 ASSUME PrintT("PRIMTEST-OK")
 VARIABLE x
 Init == x = 0
